@@ -303,11 +303,34 @@ async fn read_request(sock: &mut tokio::net::TcpStream) -> Option<(Vec<(String, 
     Some((headers, body))
 }
 
+/// Per-run scripts for scenarios with parallel runs: when set, a request is answered by
+/// `TAGGED[k][i]` where k comes from the last `RUN<k>` tag in the request body (initial request,
+/// i = 0) or from `previous_response_id = "resp_<k>_<i-1>"` (follow-ups).
+pub static TAGGED: Mutex<Option<Vec<Vec<Resp>>>> = Mutex::new(None);
+
+fn tagged_response(body: &[u8], json: &Option<Value>) -> Option<Resp> {
+    let g = TAGGED.lock().ok()?;
+    let scripts = g.as_ref()?;
+    let fallback = Resp::Sse { events: vec![SseEv::Created { id: "resp_x".into() }, SseEv::TextDelta { text: "ok".into() }, SseEv::Completed { id: "resp_x".into() }], interleave: false, done: DoneMode::Present, chunking: Chunking::Whole, drop_after: None, crlf: false };
+    if let Some(prev) = json.as_ref().and_then(|j| j.get("previous_response_id")).and_then(|p| p.as_str()) {
+        let mut it = prev.trim_start_matches("resp_").split('_');
+        let k: usize = it.next()?.parse().ok()?;
+        let i: usize = it.next()?.parse().ok()?;
+        return Some(scripts.get(k).and_then(|s| s.get(i + 1)).cloned().unwrap_or(fallback));
+    }
+    let text = String::from_utf8_lossy(body);
+    let pos = text.rfind("RUN")?;
+    let digits: String = text[pos + 3..].chars().take_while(|c| c.is_ascii_digit()).collect();
+    let k: usize = digits.parse().ok()?;
+    Some(scripts.get(k).and_then(|s| s.first()).cloned().unwrap_or(fallback))
+}
+
 async fn serve_one(mut sock: tokio::net::TcpStream, resp: Resp, rec: Arc<Mutex<Vec<Recorded>>>, index: usize) {
     let Some((headers, body)) = read_request(&mut sock).await else {
         return;
     };
     let json = serde_json::from_slice::<Value>(&body).ok();
+    let resp = tagged_response(&body, &json).unwrap_or(resp);
     rec.lock().unwrap().push(Recorded { index, headers, body: body.clone(), json });
     match resp {
         Resp::CloseWithoutResponse => {}
